@@ -123,21 +123,10 @@ def kfPeekPast (a : Api) : Op → Bool
        | _ => false)
   | _ => false
 
-/-- F08: a `Discard`, `CheckIntegrity` or `Reset` is executed while look-ups filled by a peek are still held -/
-def kfLeak (a : Api) : Op → Bool
-  | .discard | .checkIntegrity | .reset _ _ => decide (a.d.look ≠ {})
-  | _ => false
-
-/-- F10: a `CheckIntegrity` after which unread bytes stay in the read buffer -/
-def kfLeftover (a : Api) : Op → Bool
-  | .checkIntegrity => decide ((step a .checkIntegrity).1.buffered ≠ 0)
-  | _ => false
-
 def kfRun (_p : Spec) : Api → List Op → List String
   | _, [] => []
   | a, op :: ops =>
-    let here := (if kfLeak a op then ["KF-C07-1"] else []) ++ (if kfPeekPast a op then ["KF-C07-2"] else []) ++
-      (if kfLeftover a op then ["KF-C07-3"] else [])
+    let here := if kfPeekPast a op then ["KF-C07-2"] else []
     let rest := kfRun _p (step a op).1 ops
     (here ++ rest).eraseDups
 
